@@ -150,6 +150,9 @@ var vCellShapes = []vCellShape{
 	{replication.TypeEnum, 1, 1},
 	{replication.TypeString, uint16(replication.TypeString)<<8 | 8, 3}, // CHAR(8): 1 length byte + 2
 	{replication.TypeGeometry, 1, 3},
+	// 25..: DECIMAL layouts that leave the decoder by its other exits (no fraction; full 9-digit groups only)
+	{replication.TypeNewDecimal, 9 << 8, 4},
+	{replication.TypeNewDecimal, 18<<8 | 9, 8},
 }
 
 // vCellData draws the bytes of one cell of the shape; zero: all payload bytes zero.
@@ -191,9 +194,14 @@ func VH_C08_Scribble(shape, zero int) {
 	for i := range out1 {
 		out1[i] = vhU8()
 	}
+	kept := make([]byte, len(out1))
+	copy(kept, out1)
 	out2, _, err2 := replication.CellBytes(d2, 2, sh.typ, sh.meta, false)
 	vhAssert(err2 == nil, "decodes again")
 	vhAssert(len(out2) == len(want), "same length")
+	for i := range kept {
+		vhAssert(out1[i] == kept[i], "a value handed out earlier is not touched by a later decode (it belongs to its holder)")
+	}
 	for i := range want {
 		vhAssert(out2[i] == want[i], "overwriting a delivered value never changes a value delivered later")
 	}
